@@ -7,7 +7,9 @@
     limit, time limit (virtual clock)} x exec/test/match/replace/split/search, at the Python
     API (exact step accounting through the public poll callback) and at script level.
 """
+import collections
 import contextlib
+import gc
 import os
 import resource
 import signal
@@ -815,6 +817,239 @@ def _b_record(chk, c, out):
                    cls="B/%s/%s" % (lvl, "heavy" if o[0] != "ok" else "ok"), per_class=3)
 
 
+# ===================================================================== campaign (c): counted quantifiers
+# Construction with counted quantifiers over the whole range of counts: accepted or refused, the work AND the
+# memory of the attempt stay bounded (the compile budget has to stop the attempt before the space is taken).
+CONSTRUCT_PEAK_BYTES = 300 * 1024 * 1024  # same bound as DESIGN C10 (b): 300 MB, here exact (tracemalloc peak of the attempt)
+C_ATOMS = ["a", ".", "\\d", "[ab]", "[^a]", "(a)", "(?:ab)", "a?", "(?=a)", "\\b", "(a|b)", "\\1"]
+C_FORMS = ["%(A)s{%(n)d}", "%(A)s{%(n)d,}", "%(A)s{%(n)d,%(n1)d}", "%(A)s{0,%(n)d}", "%(A)s{1,%(n)d}", "%(A)s{%(n)d}?", "(?:%(A)s{%(n)d}){2}",
+           "(%(A)s{%(r)d}){%(r)d}", "(?:%(A)s{%(n)d}|b)", "(?<=%(A)s{%(n)d})b", "%(A)s{%(n)d}{2}"]
+
+
+def c_cases(chk):
+    quick = chk.tier == "quick"
+    counts = []
+    for k in range(3, 14):
+        for m in (1, 2, 5):
+            counts.append(m * 10 ** k)
+    counts += [65535, 65536, 2 ** 31 - 1, 2 ** 31, 2 ** 32, 2 ** 53, 199999, 200001]
+    out = []
+    i = 0
+    for ai, A in enumerate(C_ATOMS):
+        for fi, F in enumerate(C_FORMS):
+            for ci, n in enumerate(sorted(set(counts))):
+                i += 1
+                if quick and (ai + 2 * fi + ci + chk.seed) % 6 != 0:
+                    continue
+                pat = F % {"A": A if A != "\\1" else "(a)\\1", "n": n, "n1": n + 1, "r": max(2, int(n ** 0.5))}
+                out.append({"sub": "C", "p": pat, "f": "", "n": n, "atom": A, "form": fi})
+    return out
+
+
+def c_eval(case):
+    import tracemalloc
+
+    rx = _rx()
+    gc.collect()
+    tracemalloc.start()
+    t0 = time.process_time()
+    try:
+        try:
+            with cpu_alarm(3 * CONSTRUCT_ALARM_S):  # tracing slows allocation down
+                rx.RegExp(case["p"], case["f"])
+            out = ("ok", None)
+        except pool.HarnessTimeout:
+            out = ("cpu", None)
+        except rx.RegExpError as e:
+            out = ("refused", str(e)[:60])
+        except BaseException as e:  # noqa
+            out = ("exc", _exc(e))
+    except pool.HarnessTimeout:
+        out = ("cpu", None)
+    cpu = time.process_time() - t0
+    peak = tracemalloc.get_traced_memory()[1]
+    tracemalloc.stop()
+    gc.collect()
+    return {"outcome": out, "cpu": round(cpu, 3), "peak": peak}
+
+
+def c_judge(case, r):
+    v = []
+    kind, detail = r["outcome"]
+    if kind == "exc":
+        v.append(("C|exception %s at %s" % (detail[1], detail[3]), "RegExp object or RegExpError", detail))
+    elif kind == "cpu":
+        v.append(("C|construction work unbounded|form%d" % case["form"], "returns within %.0f CPU-s (traced)" % (3 * CONSTRUCT_ALARM_S), ["cpu_s", r["cpu"]]))
+    if r["peak"] > CONSTRUCT_PEAK_BYTES:
+        v.append(("C|construction memory unbounded|%s" % kind, "peak allocation <= %d MB" % (CONSTRUCT_PEAK_BYTES >> 20), ["peak_mb", r["peak"] >> 20, kind]))
+    return v
+
+
+def c_task(cases):
+    return [c_eval(c) for c in cases]
+
+
+def run_c(chk):
+    cases = c_cases(chk)
+    batches = pool.chunks(cases, 6)
+    results = pool.run(c_task, batches, timeout=600, mem_bytes=8 << 30)
+    peak = 0
+    for batch, rb in zip(batches, results):
+        if isinstance(rb, (pool.HANG, pool.CRASH)):
+            rs = pool.run(c_task, [[c] for c in batch], timeout=200, mem_bytes=8 << 30)
+            rb = []
+            for c, r1 in zip(batch, rs):
+                if isinstance(r1, (pool.HANG, pool.CRASH)):
+                    chk.count()
+                    chk.violation("C|%r: the worker had to be killed|form%d" % (r1, c["form"]), c, "RegExp object or RegExpError", repr(r1), sub="C")
+                    rb.append(None)
+                else:
+                    rb.append(r1[0])
+        for c, r in zip(batch, rb):
+            if r is None:
+                continue
+            chk.count()
+            chk.classify("c %s" % r["outcome"][0])
+            if c["n"] >= 10000:
+                chk.nontrivial("C|" + c["p"])
+            peak = max(peak, r["peak"])
+            for sig, e, a in c_judge(c, r):
+                chk.violation(sig, c, e, a, sub="C", detail={"cpu": r["cpu"], "peak_bytes": r["peak"]})
+            if c["n"] in (5000000, 2 ** 31) and c["form"] < 3:
+                chk.sample({"sub": "C", "pattern": c["p"], "outcome": r["outcome"], "cpu_s": r["cpu"], "peak_mb": round(r["peak"] / 1e6, 1)}, cls="C", per_class=4)
+    chk.extra["counted_quantifier_cases"] = len(cases)
+    chk.extra["counted_quantifier_peak_alloc_mb"] = round(peak / 1e6, 1)
+
+
+# ===================================================================== campaign (d): every script-level API comes back
+# Accepted random patterns x flag sets (g, y, u, i, m, s) x short subjects with astral characters, lone
+# surrogates, newlines, through every regex-consuming API: a result or a JSError, never a call that does not
+# come back (global loops have to advance over empty matches wherever they are).
+D_SUBJECT_PARTS = ["a", "b", "ab", "A", "1", "_", " ", "\n", "\U0001F600", "\U0001F600\U0001F601", "\ud83d", "\ude00", "\u00e9", "\u2028", "x\U00010000y"]
+D_FLAGS = ["", "g", "y", "gy", "u", "gu", "uy", "guy", "gi", "gm", "gs", "gimsuy", "iu", "gmu"]
+D_EMPTY_MATCHERS = ["", "(?:)", "a*", "x*", "\\d*", "(?=.)|$", "(a)?", "\\b", "^", "$", "(?!x)", "(?<=.)", "[^]*?", ".*?", "(?:a|)", "()", "(|a)+", "\\B", "(?=(a))?", "a{0}",
+                    ".??", "(?<!x)", "$|^", "(?:^|$)", "[ab]*", "\\s*", "\\uD83D?", "\\u{1F600}?", ".", "[^a]", "\\W*", "\\S?"]
+_D_JS = """
+var r; var out = [];
+var step = function(name, f){ try { var v = f(); out.push(name + ':' + (v === null ? 'null' : typeof v)); } catch (e) { out.push(name + ':E:' + (e && e.name)); } };
+try { r = new RegExp(P, F); } catch (e) { r = null; out.push('ctor:E:' + (e && e.name)); }
+if (r) {
+  step('match', function(){ r.lastIndex = 0; return S.match(r); });
+  step('replace', function(){ r.lastIndex = 0; return S.replace(r, '[$&]'); });
+  step('replace-fn', function(){ r.lastIndex = 0; return S.replace(r, function(m){ return '<' + m + '>'; }); });
+  step('replaceAll', function(){ r.lastIndex = 0; return S.replaceAll(r, '-'); });
+  step('split', function(){ r.lastIndex = 0; return S.split(r); });
+  step('split-limit', function(){ r.lastIndex = 0; return S.split(r, 3); });
+  step('search', function(){ r.lastIndex = 0; return S.search(r); });
+  step('matchAll', function(){ r.lastIndex = 0; var it = S.matchAll(r); var n = 0; if (it && typeof it.next === 'function') { while (!it.next().done && n < 200) n++; } else if (it && it.length !== undefined) { n = it.length; } return n; });
+  step('exec-loop', function(){ r.lastIndex = 0; var n = 0; while (r.exec(S) && n < 60) n++; return n; });
+  step('test-loop', function(){ r.lastIndex = 0; var n = 0; while (r.test(S) && n < 60) n++; return n; });
+  step('lastIndex-mid', function(){ var n = 0; for (var i = 0; i <= S.length + 1; i++) { r.lastIndex = i; r.exec(S); r.lastIndex = i; S.match(r); r.lastIndex = i; S.replace(r, ''); n++; } return n; });
+}
+out.join(',')
+"""
+D_T = 3.0
+D_ALARM = 12.0
+
+
+def d_cases(chk):
+    import random  # deterministic selection only (seeded)
+
+    from gens import patterns as PT
+
+    rnd = random.Random(core.shard_seed(chk.seed, ID, "D"))
+    quick = chk.tier == "quick"
+    out = []
+
+    def subject():
+        return "".join(rnd.choice(D_SUBJECT_PARTS) for _ in range(rnd.randint(0, 5)))
+
+    fixed_subjects = ["", "\U0001F600", "a\U0001F600", "\U0001F600a", "\U0001F600\U0001F601", "\ud83d", "\ude00a", "ab", "a\nb"]
+    for pi, pat in enumerate(D_EMPTY_MATCHERS):
+        for fi, fl in enumerate(D_FLAGS):
+            for si, sub in enumerate(fixed_subjects):
+                if quick and (pi + fi + si + chk.seed) % 3 != 0:
+                    continue
+                out.append({"sub": "D", "p": pat, "f": fl, "s": sub})
+    n_rand = 1500 if quick else 40000
+    for k in range(n_rand):
+        ast = PT.random_ast(random.Random(core.shard_seed(chk.seed, ID, "D", k)), max_depth=rnd.choice([1, 2, 2, 3]))
+        out.append({"sub": "D", "p": PT.to_source(ast), "f": rnd.choice(D_FLAGS), "s": subject()})
+    return out
+
+
+def d_eval(case):
+    m = _m()
+    ctx = m.Context(time_limit=D_T, memory_limit=64 * 1024 * 1024)
+    ctx.set("P", case["p"])
+    ctx.set("F", case["f"])
+    ctx.set("S", case["s"])
+    t0 = time.process_time()
+    try:
+        try:
+            with cpu_alarm(D_ALARM):
+                r = ctx.eval(_D_JS)
+            out = ("ok", str(r)[:400])
+        except pool.HarnessTimeout:
+            out = ("hang", None)
+        except m.JSError as e:
+            out = ("jserror", type(e).__name__)
+        except BaseException as e:  # noqa
+            out = ("exc", _exc(e))
+    except pool.HarnessTimeout:
+        out = ("hang", None)
+    return {"outcome": out, "cpu": round(time.process_time() - t0, 3)}
+
+
+def d_judge(case, r):
+    kind, detail = r["outcome"]
+    if kind == "hang":
+        return [("D|no return: time limit %.0f s set, still running after %.0f CPU-s|flags=%s" % (D_T, D_ALARM, "".join(sorted(set(case["f"])))),
+                 "a result or a JSError", ["cpu_s", r["cpu"]])]
+    if kind == "exc":
+        return [("D|host exception %s at %s" % (detail[1], detail[3]), "a result or a JSError", detail)]
+    return []
+
+
+def d_task(cases):
+    return [d_eval(c) for c in cases]
+
+
+def run_d(chk):
+    cases = d_cases(chk)
+    batches = pool.chunks(cases, 25)
+    results = pool.run(d_task, batches, timeout=25 * D_ALARM + 60)
+    apis = collections.Counter()
+    for batch, rb in zip(batches, results):
+        if isinstance(rb, (pool.HANG, pool.CRASH)):
+            rs = pool.run(d_task, [[c] for c in batch], timeout=D_ALARM + 60)
+            rb = []
+            for c, r1 in zip(batch, rs):
+                if isinstance(r1, (pool.HANG, pool.CRASH)):
+                    chk.count()
+                    chk.violation("D|%r: the worker had to be killed" % (r1,), c, "a result or a JSError", repr(r1), sub="D")
+                    rb.append(None)
+                else:
+                    rb.append(r1[0])
+        for c, r in zip(batch, rb):
+            if r is None:
+                continue
+            chk.count()
+            o = r["outcome"]
+            chk.classify("d %s" % (o[0] if o[0] != "jserror" else "jserror:" + o[1]))
+            if o[0] == "ok" and "ctor:E" not in o[1]:
+                # the pattern compiled and every API was driven
+                chk.nontrivial("D|" + core.h16([c["p"], c["f"], c["s"]]))
+                for part in o[1].split(","):
+                    apis[part.split(":")[0] + (":E" if ":E:" in part else "")] += 1
+            for sig, e, a in d_judge(c, r):
+                chk.violation(sig, c, e, a, sub="D", detail={"cpu": r["cpu"]})
+            if o[0] == "ok" and len(c["s"]) > 2 and "u" in c["f"] and "g" in c["f"]:
+                chk.sample({"sub": "D", "pattern": c["p"], "flags": c["f"], "subject": c["s"], "apis": o[1][:200], "cpu_s": r["cpu"]}, cls="D", per_class=3)
+    chk.extra["api_totality_cases"] = len(cases)
+    chk.extra["api_outcomes"] = dict(sorted(apis.items()))
+
+
 # ===================================================================== atheris (thorough, optional)
 _ATHERIS_SRC = r'''
 import sys, signal
@@ -927,6 +1162,14 @@ def replay(rec):
         v = b_judge(case, out)
         return {"fails": bool(v), "expected": v[0][1] if v else rec.get("expected"), "actual": v[0][2] if v else out["outcome"],
                 "signature": v[0][0] if v else None}
+    if case.get("sub") == "C":
+        r = c_eval(case)
+        v = c_judge(case, r)
+        return {"fails": bool(v), "expected": v[0][1] if v else rec.get("expected"), "actual": v[0][2] if v else r["outcome"]}
+    if case.get("sub") == "D":
+        r = d_eval(case)
+        v = d_judge(case, r)
+        return {"fails": bool(v), "expected": v[0][1] if v else rec.get("expected"), "actual": v[0][2] if v else r["outcome"]}
     if case.get("sub") == "atheris":
         data = bytes.fromhex(case["bytes_hex"])
         return {"fails": None, "expected": rec.get("expected"), "actual": "re-run with: python3-vt fuzz.py <file> (%d bytes)" % len(data)}
@@ -981,7 +1224,11 @@ def main(chk):
     run_b(chk, guard_on)
     t1 = time.time()
     run_a(chk, guard_on)
-    chk.extra["phase_wall_s"] = {"b": round(t1 - t0, 1), "a": round(time.time() - t1, 1)}
+    t2 = time.time()
+    run_c(chk)
+    t3 = time.time()
+    run_d(chk)
+    chk.extra["phase_wall_s"] = {"b": round(t1 - t0, 1), "a": round(t2 - t1, 1), "c": round(t3 - t2, 1), "d": round(time.time() - t3, 1)}
     if chk.tier == "thorough":
         run_atheris(chk, guard_on)
     else:
